@@ -1408,6 +1408,7 @@ func (self *LockDB) GetOrNewLockManager(command *protocol.LockCommand) *LockMana
 			self.mGlock.RUnlock()
 		}
 
+		verifPoint("mgr.fast.alloc", fastValue, command)
 		freeLockManagerTail := atomic.AddUint32(&self.freeLockManagerTail, 1) % self.maxFreeLockManagerCount
 		lockManager := self.freeLockManagers[freeLockManagerTail]
 		for lockManager == nil {
@@ -1447,6 +1448,7 @@ func (self *LockDB) GetOrNewLockManager(command *protocol.LockCommand) *LockMana
 		}
 	}
 
+	verifPoint("mgr.slow.enter", fastValue, command)
 	self.mGlock.Lock()
 	if lockManager, ok := self.locks[command.LockKey]; ok && atomic.LoadUint32(&lockManager.refCount) != 0xffffffff {
 		self.mGlock.Unlock()
